@@ -199,6 +199,10 @@ fn c19_check(c: &StreamCase, st: &mut Stats) -> CheckResult {
     Ok(Outcome::Ok)
 }
 
+pub fn c19_entry(c: &StreamCase, st: &mut Stats) -> CheckResult {
+    c19_check(c, st)
+}
+
 /// real threads: the producer runs while the receiver polls; only the timing-independent prefix
 /// invariant is checked
 fn c19_threads(c: &StreamCase, st: &mut Stats) -> CheckResult {
@@ -288,9 +292,9 @@ pub fn c19(tier: Tier) -> PropSpec {
         ],
         exhaustive: false,
         parts: vec![
-            Part::new("schedules", tier.pick(3000, 40000), || stream_case(5, 30), c19_check),
-            Part::new("short-exhaustive", tier.pick(1500, 15000), || stream_case(3, 4), c19_check),
-            Part::new("threads", tier.pick(200, 3000), || stream_case(5, 40), c19_threads),
+            Part::new("schedules", tier.pick(20000, 200000), || stream_case(5, 30), c19_check),
+            Part::new("short-exhaustive", tier.pick(6000, 60000), || stream_case(3, 4), c19_check),
+            Part::new("threads", tier.pick(800, 8000), || stream_case(5, 40), c19_threads),
         ],
     }
 }
@@ -414,7 +418,7 @@ pub fn c20(tier: Tier) -> PropSpec {
             EnumPart::new("exhaustive", move || all_vectors(maxlen), c20_check),
             Part::new(
                 "generated",
-                tier.pick(2000, 50000),
+                tier.pick(30000, 300000),
                 || {
                     proptest::collection::vec(prop_oneof![2 => 0u8..2, 1 => 2u8..6], 0..15)
                         .prop_map(|mut v| {
